@@ -25,6 +25,13 @@ CHECKS = {
              "reject over-long 16-bit lengths, for every VR, tag and length; the spec table is written from the standard.",
         note="Trusted: Kani/CBMC, std `Write for &mut [u8]`. Backtrace capture stubbed. Error values are forgotten, not dropped.",
     ),
+    "C04": dict(
+        technique="Verus contracts on the extracted StatefulEncoder methods with a ghost byte log on the sink; Kani bounded harnesses for the value encoders' byte counts",
+        text="Unbounded proof that each printer method advances bytes_written by exactly the bytes appended, writes even defined lengths equal to "
+             "the value bytes that follow and pads odd values with the VR-specific byte; the value encoders' counts are bounded-checked only.",
+        note="EncodeTo and the text codec are abstract callees; the link calculate_byte_len <-> encode_primitive is assumed in the proof and only "
+             "bounded-checked; list-of-strings and DS/IS-as-text paths, the token-level writer and file writing are uncovered.",
+    ),
     "C07": dict(
         technique="Verus contracts on the extracted StatefulDecoder readers with ghost byte counters on the Read/BasicDecode shims; sanitize_length against the three strategies",
         text="Unbounded proof (every VR, every u32 length) that after each successful value/header/skip read the reported position equals the "
@@ -91,7 +98,6 @@ NOT_APPLICABLE = {
     "C35": "External binaries and the `image` crate.",
     "C36": "Parsing delegates to `std::net` address parsers and `str` splitting; string reasoning unsupported in Verus, too heavy for CBMC; no arithmetic or structural kernel to put under contract.",
     "C01": "check not built yet in this session (planned in DESIGN.md section 7); not claimed until its check runs",
-    "C04": "check not built yet in this session (planned in DESIGN.md section 7); not claimed until its check runs",
     "C05": "check not built yet in this session (planned in DESIGN.md section 7); not claimed until its check runs",
     "C09": "check not built yet in this session (planned in DESIGN.md section 7); not claimed until its check runs",
     "C12": "check not built yet in this session (planned in DESIGN.md section 7); not claimed until its check runs",
